@@ -8,21 +8,23 @@ d = os.path.join(root, "seeded", nid)
 os.makedirs(d, exist_ok=True)
 pname = os.path.basename(outdir.rstrip("/"))
 cx = pname.split("_")[0]
-conf = json.load(open(f"/tmp/confirm2/{cx}-{k}.json"))
+cdir = "/tmp/confirm3" if cx.startswith("A") else "/tmp/confirm2"
+conf = json.load(open(f"{cdir}/{cx}-{k}.json"))
 shutil.copy(os.path.join(outdir, f"patch{k}.diff"), os.path.join(d, "patch.diff"))
 demo = os.path.join(outdir, f"demo{k}_test.go")
+if not os.path.exists(demo): demo = os.path.join(outdir, "demo_bin.sh")
 shutil.copy(demo, os.path.join(d, os.path.basename(demo)))
 if os.path.exists(os.path.join(outdir, "meta.txt")):
     shutil.copy(os.path.join(outdir, "meta.txt"), os.path.join(d, "author_notes.txt"))
 det = None
-for l in open(os.path.join(root, "out", "mutants.log")):
+for l in list(open(os.path.join(root, "out", "mutants.log"))) + (list(open(os.path.join(root, "out", "mutants3.log"))) if os.path.exists(os.path.join(root, "out", "mutants3.log")) else []):
     if l.startswith(f"{pname}/patch{k}.diff "):
         parts = l.rstrip("\n").split(" ", 3)
         det = {"check": parts[1], "result": parts[2], "first_reason": (parts[3] if len(parts) > 3 else "").lstrip("# ")[:300]}
 ok = conf.get("builds") == "ok" and conf.get("existing_suite_unchanged_default_and_noasm") == "yes" and \
      ("FAIL" in conf.get("demo_with_change", "") or "FAIL" in conf.get("demo_with_change_noasm", "")) and \
      conf.get("demo_on_clean_tree", "").startswith("ok") and conf.get("demo_on_clean_tree_noasm", "").startswith("ok")
-meta = {"breaks_property": prop, "needs_to_manifest": needs, "confirmation": conf, "confirmed": ok, "round": 2,
+meta = {"breaks_property": prop, "needs_to_manifest": needs, "confirmation": conf, "confirmed": ok, "round": 3 if cx.startswith("A") else 2,
         "what_i_ran": "lib/confirm_mutant.sh in the author's scratch worktree: go build; full suite pass/fail set compared with the unmodified tree (default and -tags noasm); the demonstration run with and without the change; then lib/mutant.sh (apply to /repo, run the property's quick check, restore)",
         "detected_by": det}
 json.dump(meta, open(os.path.join(d, "meta.json"), "w"), indent=1)
